@@ -21,12 +21,17 @@ ID = 'C20'
 MID = ['qa', 'pause', 'unpause', 'sync']
 LEVELS = {
     'quick': [
-        {'name': 'L1-len3-p2', 'len': 3, 'preempt': 2, 'budget_s': 150},
+        {'name': 'L1-len3-p2', 'len': 3, 'preempt': 2, 'sync_yields': 3, 'cycles': 14, 'budget_s': 150},
+        {'name': 'L2-lines-p1', 'len': 0, 'preempt': 1, 'lines': 1, 'line_scripts': 1, 'sync_yields': 3, 'cycles': 12,
+         'max_switches': 600, 'budget_s': 120},
     ],
     'thorough': [
-        {'name': 'L1-len3-p3', 'len': 3, 'preempt': 3, 'budget_s': 1800},
-        {'name': 'L2-len4-p2', 'len': 4, 'preempt': 2, 'budget_s': 2400},
-        {'name': 'L3-len2-p1-lines', 'len': 2, 'preempt': 1, 'lines': 1, 'budget_s': 1800},
+        {'name': 'L1-len3-p3', 'len': 3, 'preempt': 3, 'sync_yields': 3, 'cycles': 14, 'budget_s': 1800},
+        {'name': 'L2-len4-p2', 'len': 4, 'preempt': 2, 'sync_yields': 3, 'cycles': 16, 'budget_s': 2400},
+        {'name': 'L3-lines-p2', 'len': 0, 'preempt': 2, 'lines': 1, 'line_scripts': 1, 'sync_yields': 3, 'cycles': 12,
+         'max_switches': 600, 'budget_s': 2400},
+        {'name': 'L4-len2-p1-lines', 'len': 2, 'preempt': 1, 'lines': 1, 'sync_yields': 3, 'cycles': 12, 'max_switches': 600,
+         'budget_s': 1800},
     ],
 }
 WITNESSES = ['stop_while_executing', 'paused_then_stopped', 'event_queued_while_paused', 'runner_ended_on_final',
@@ -67,7 +72,13 @@ def scripts(n):
     return out
 
 
+LINE_SCRIPTS = [['qa', 'qd', 'start', 'qa', 'sync', 'stop'], ['qa', 'start', 'qa', 'qa', 'sync', 'stop'],
+                ['qd', 'qa', 'start', 'qa', 'sync', 'sync', 'stop'], ['qd', 'start', 'sync', 'qa', 'qa', 'sync', 'stop']]
+
+
 def shards(level):
+    if level.get('line_scripts'):
+        return [{'script': s, 'all': a} for s in LINE_SCRIPTS for a in (0, 1)]
     return [{'script': s, 'all': a} for s in scripts(level['len']) for a in (0, 1)]
 
 
@@ -93,10 +104,24 @@ def make_chart(g):
 
 
 def classify(label, info, item):
-    tr = (info or {}).get('switches') or []
-    if label in ('every_event_consumed_once_fifo',) and any(str(t[0]).startswith('line:') for t in tr):
+    # the recorded finding is one specific history: the client was preempted inside Interpreter._queue_event
+    # (between computing the insertion index and inserting) and the runner executed a macro step meanwhile
+    if label == 'every_event_consumed_once_fifo' and (info or {}).get('runner_stepped_while_client_inside_queue_event'):
         return 'queue_race_bisect_insert'
     return label
+
+
+def race_window(tl):
+    inside = False
+    for x in tl:
+        if x[0] == 'switch':
+            if x[1] == 'main' and str(x[3]).startswith('line:_queue_event'):
+                inside = True
+            elif x[2] == 'main':
+                inside = False
+        elif x[0] == 'exec_end' and inside:
+            return True
+    return False
 
 
 def harness(g, job, level, canary=False):
@@ -116,6 +141,13 @@ def harness(g, job, level, canary=False):
     S.SCHED = sch
     it = Interpreter(make_chart(g))
     tl = []            # timeline
+    sw0 = sch._switch_to
+
+    def sw(nxt):
+        if nxt is not sch.cur:
+            tl.append(('switch', sch.cur.name, nxt.name, sch.trace[-1][0] if sch.trace else ''))
+        sw0(nxt)
+    sch._switch_to = sw
     executed, reported, calls_in_cycle = [], [], []
     cap = level.get('cycles', 8)
     real_once = it.execute_once
@@ -157,6 +189,7 @@ def harness(g, job, level, canary=False):
             sch.yield_point('hook:after_execute')
     runner = Obs(it, interval=0, execute_all=bool(job['all']))
     queued = []
+    delayed = []       # queued with a delay that never elapses in this harness: must stay pending, must not block others
     lines = bool(level.get('lines'))
 
     def tracer(frame, event, arg):
@@ -189,10 +222,14 @@ def harness(g, job, level, canary=False):
                 runner.start()
                 started = True
                 tl.append(('start_ret',))
-            elif op in ('qa', 'qfin'):
-                tag = 'e%d' % (len(queued) + 1)
-                queued.append(tag)
-                it.queue(Event('a' if op == 'qa' else 'fin', tag=tag))
+            elif op in ('qa', 'qfin', 'qd'):
+                tag = 'e%d' % (len(queued) + len(delayed) + 1)
+                if op == 'qd':
+                    delayed.append(tag)
+                    it.queue(Event('a', tag=tag, delay=5))
+                else:
+                    queued.append(tag)
+                    it.queue(Event('a' if op == 'qa' else 'fin', tag=tag))
                 tl.append(('queued', tag))
                 sch.yield_point('client:queued')
             elif op == 'pause':
@@ -203,7 +240,7 @@ def harness(g, job, level, canary=False):
                 tl.append(('unpause_call',))
                 runner.unpause()
             elif op == 'sync':
-                for _ in range(8):
+                for _ in range(level.get('sync_yields', 8)):
                     rt = sch.thread('T1')
                     if rt is None or rt.state != 'ready':
                         break
@@ -229,8 +266,10 @@ def harness(g, job, level, canary=False):
         sch.shutdown()
         S.SCHED = None
     switches = [t for t in sch.trace if t[1] != t[2]]
-    info = lambda: {'script': job['script'], 'execute_all': job['all'], 'timeline': [list(x) for x in tl][-40:],   # noqa: E731
-                    'switches': [list(x) for x in switches][-25:]}
+    info = lambda: {'script': job['script'], 'execute_all': job['all'],   # noqa: E731
+                    'timeline': [list(x) for x in tl if x[0] != 'switch'][-40:],
+                    'switches': [list(x) for x in switches][-25:],
+                    'runner_stepped_while_client_inside_queue_event': race_window(tl)}
     for t in sch.threads[1:]:
         if t.exc is not None and not isinstance(t.exc, S.Killed):
             from ..symex import Infeasible, PathEnd
@@ -238,7 +277,7 @@ def harness(g, job, level, canary=False):
                 raise t.exc
             g.fail('runner_thread_died', lambda: dict(info(), exception=repr(t.exc)))
     if sch.truncated:
-        g.stats.truncated += 1
+        g.stats.capped += 1       # reported as truncated by the runner: never counted as passed
         return
     if sch.preempts:
         g.witness('preempted')
@@ -309,6 +348,7 @@ def harness(g, job, level, canary=False):
     else:
         g.prove(consumed == expect, 'every_event_consumed_once_fifo',
                 lambda: dict(info(), queued=queued, consumed=consumed))
+    g.prove(not any(t in consumed for t in delayed), 'delayed_event_not_consumed_early', info)
     if by_runner >= 2:
         g.witness('two_events_consumed_in_order')
     if 'wait_ret' in names:
